@@ -375,3 +375,14 @@ func VerifMaybeCommit(voters, learners []uint64) (committed uint64, perr string)
 	r.maybeCommit()
 	return r.raftLog.committed, ""
 }
+
+// VerifAppliedCursor evaluates Ready.appliedCursor (what Advance moves the applied index to) for a Ready whose
+// CommittedEntries have the given indexes and whose Snapshot has the given index (0 = no snapshot).
+func VerifAppliedCursor(committed []uint64, snapIndex uint64) uint64 {
+	rd := Ready{}
+	for _, i := range committed {
+		rd.CommittedEntries = append(rd.CommittedEntries, pb.Entry{Index: i})
+	}
+	rd.Snapshot.Metadata.Index = snapIndex
+	return rd.appliedCursor()
+}
